@@ -31,9 +31,61 @@ STRUCTURE_INDEPENDENT = {
     # verdict state kept on the verifier, a path to the writer that misses the gate / a send slot keyed by the period
     "R08.5", "R08.6", "R09.4", "R10.1", "R10.2", "J", "R04.8", "R06.9",
     # construct-level rules of sa/rules/lints.py
-    "R01.10", "R02.9", "R04.9", "R10.4", "R14.6", "R07.8", "R11.8", "R18.7", "R09.6", "R09.7", "R14.7", "R10.5", "R15.5", "R15.6", "R16.7", "R16.8", "R09.8", "R14.8", "R18.8", "R10.6", "R05.5", "R07.9", "R12.9", "R01.11", "R02.10", "R20.6", "R20.7", "R11.9",
+    "R01.10", "R02.9", "R04.9", "R10.4", "R14.6", "R07.8", "R11.8", "R18.7", "R09.6", "R09.7", "R14.7", "R10.5", "R15.5", "R15.6", "R16.7", "R16.8", "R09.8", "R14.8", "R18.8", "R10.6", "R05.5", "R07.9", "R12.9", "R01.11", "R02.10", "R20.6", "R20.7", "R11.9", "W1", "R13.6",
 }
 HERE = os.path.dirname(os.path.dirname(os.path.abspath(__file__)))
+
+
+_CDEF = None
+_CKEYWORDS = {"if", "for", "while", "switch", "return", "catch", "sizeof", "else", "do", "defined", "static_assert", "decltype", "alignof", "new", "delete", "throw", "case"}
+
+
+def nonpy_definitions(root: str) -> Dict[str, Set[str]]:
+    """relative path -> names defined in it, for the templates / C / C++ sources the plug-ins ship: C and C++ functions and
+    methods (a tolerant line pattern; used only to notice that something NEW is defined), Jinja macros and imports"""
+    import re
+    global _CDEF
+    if _CDEF is None:
+        _CDEF = re.compile(r"^[ \t]*(?:template\s*<[^>]*>\s*)?(?:(?:static|inline|constexpr|virtual|explicit|friend|extern)\s+)*[\w:<>,\*&\s\[\]]*?\b([A-Za-z_~]\w*)\s*\([^;{}]*\)\s*(?:const\s*)?(?:noexcept\s*)?(?:override\s*)?(?:final\s*)?(?:->\s*[\w:<>\*&\s]+?)?(?::[^{;]*)?\{", re.M)
+    out: Dict[str, Set[str]] = {}
+    plug = os.path.join(root, "plugins")
+    if not os.path.isdir(plug):
+        return out
+    for dp, dn, fn in os.walk(plug):
+        if any(x in dp for x in (os.sep + "tests", os.sep + "example", "__pycache__", ".egg-info")):
+            continue
+        for f in fn:
+            if not f.endswith((".h", ".hpp", ".c", ".cpp", ".j2", ".jinja")):
+                continue
+            p = os.path.join(dp, f)
+            try:
+                src = open(p, encoding="utf-8", errors="replace").read()
+            except OSError:
+                continue
+            names = {m.group(1) for m in _CDEF.finditer(src) if m.group(1) not in _CKEYWORDS}
+            names |= {"macro " + m.group(1) for m in re.finditer(r"\{%-?\s*macro\s+(\w+)", src)}
+            names |= {"import " + m.group(1) for m in re.finditer(r"\{%-?\s*(?:import|from)\s+[\"']([^\"']+)", src)}
+            out[os.path.relpath(p, root)] = names
+    return out
+
+
+def new_nonpy(root: str) -> Dict[str, List[str]]:
+    """relative path -> definitions that the inventory does not list for that file (every definition of a file that is new)"""
+    try:
+        inv = json.load(open(os.path.join(HERE, "sa", "known_functions.json"))).get("nonpy")
+    except Exception:
+        inv = None
+    if not inv:
+        return {}
+    out = {}
+    for rel, names in nonpy_definitions(root).items():
+        if rel not in inv:
+            out[rel] = ["(new file)"] + sorted(names)
+        else:
+            extra = sorted(names - set(inv[rel]))
+            if extra:
+                out[rel] = extra
+    return out
 
 
 def new_structure(prog) -> Dict[str, Set[str]]:
@@ -71,7 +123,8 @@ def new_on_path(eng, ns, qual: str) -> List[str]:
     if qual in prog.functions:
         quals = [qual]
     elif qual in prog.classes:
-        quals = [m.qual for m in prog.classes[qual].methods.values()]
+        # the class and what it inherits: a method moved into a base class is still this class's behaviour
+        quals = [m.qual for c in prog.mro(prog.classes[qual]) for m in c.methods.values()]
         if qual in ns["classes"]:
             hits.append(qual)
     new_class_names = {q.split(".")[-1]: q for q in ns["classes"]}
@@ -112,11 +165,11 @@ def anchor_files(pid: str) -> List[str]:
 def apply(eng, rep) -> None:
     prog = eng.prog
     ns = new_structure(prog)
-    if not ns["funcs"] and not ns["classes"]:
+    if not ns["funcs"] and not ns["classes"] and not new_nonpy(eng.root):
         return
     # violations of shape rules in code that uses new structure
     for o in rep.obls:
-        if o["verdict"] != "violation" or o["rule"] in STRUCTURE_INDEPENDENT:
+        if o["verdict"] != "violation" or o["rule"] in STRUCTURE_INDEPENDENT or o.get("construct_level"):
             continue
         fn = o["function"]
         parts = [p.strip() for p in fn.replace(" / ", "|").split("|")]
@@ -142,7 +195,10 @@ def apply(eng, rep) -> None:
                 if prog.classes[q].file in files or os.path.dirname(prog.classes[q].file) in dirs:
                     hits.append(q)
             if o["file"] not in ("-", "") and not o["file"].endswith(".py"):
-                hits = []  # reports on templates / C / C++ sources are judged by their own front ends
+                # a report on a template / C / C++ source: new definitions in that file or in a file next to it
+                nn = new_nonpy(eng.root)
+                d_ = os.path.dirname(o["file"])
+                hits = [x for rel, xs in sorted(nn.items()) if os.path.dirname(rel) == d_ or rel == o["file"] for x in xs if x != "(new file)"] + [rel for rel, xs in sorted(nn.items()) if os.path.dirname(rel) == d_ and "(new file)" in xs]
         if hits:
             o["verdict"] = "undecided"
             o["detail"] = "not decided: this path uses structure that is not in the checker's inventory (%s); against the known shape the rule would report: %s" % (", ".join(h.split(".")[-1] for h in hits[:4]), o["detail"][:300])
@@ -159,6 +215,10 @@ def apply(eng, rep) -> None:
             c = prog.classes[q]
             if c.file in files or os.path.dirname(c.file) in dirs:
                 near.append(q)
+        nn = new_nonpy(eng.root)
+        for rel, xs in sorted(nn.items()):
+            if rel in files or os.path.dirname(rel) in dirs:
+                near += [x if x != "(new file)" else rel for x in xs]
         soft = [e for e in rep.errors if not e.startswith("checker crashed") and "does not parse" not in e]
         if near and len(soft) == len(rep.errors):
             for e in rep.errors:
